@@ -59,6 +59,9 @@ func (f DcDcConverterErrorFactoryType) New(v uint8) (DcDcConverterError, error) 
 }
 
 func (f DcDcConverterErrorFactoryType) NewEnum(v int) (Enum, error) {
+	if v < 0 || v > 255 {
+		return nil, ErrInvalidEnumIdx
+	}
 	return f.New(uint8(v))
 }
 
